@@ -549,7 +549,19 @@ func WaitNoNewMangosGoroutines(base map[string]bool, d time.Duration) []string {
 // OwnsListeningPort reports whether this very process has a TCP socket in LISTEN state on the
 // given port (via /proc): an address that cannot be bound again is a leak of ours only then —
 // otherwise an unrelated process took the port after it was freed.
-func OwnsListeningPort(port int) bool {
+func OwnsListeningPort(port int) bool { return ownsLocalPort(port, "0A") }
+
+// OwnsServerSideConnection reports whether this process holds the accepted (server) end of a TCP
+// connection on the given local port (ESTABLISHED or CLOSE_WAIT): a raw client connection that
+// stays open after its listener was closed is a leak of the library only then — otherwise the
+// client reached an unrelated process that had taken the freed port.
+func OwnsServerSideConnection(port int) bool { return ownsLocalPort(port, "01", "08") }
+
+func ownsLocalPort(port int, states ...string) bool {
+	want := map[string]bool{}
+	for _, st := range states {
+		want[st] = true
+	}
 	inodes := map[string]bool{}
 	for _, f := range []string{"/proc/self/net/tcp", "/proc/self/net/tcp6"} {
 		b, err := os.ReadFile(f)
@@ -558,7 +570,7 @@ func OwnsListeningPort(port int) bool {
 		}
 		for _, line := range strings.Split(string(b), "\n")[1:] {
 			fs := strings.Fields(line)
-			if len(fs) < 10 || fs[3] != "0A" {
+			if len(fs) < 10 || !want[fs[3]] {
 				continue
 			}
 			i := strings.LastIndex(fs[1], ":")
